@@ -5,6 +5,7 @@ CONSTANTS Family = "time"
           G = 4
           LTwo = FALSE
           EmitTwoRequests = FALSE
+          Relabel = "none"
 INVARIANTS C48_ResultSatisfiesProperty FunctionalFormAgrees
 PROPERTY Progress
 CHECK_DEADLOCK TRUE
